@@ -292,7 +292,7 @@ class Style(str):
         return self.apply(self.value)
 
     def __format__(self, format_spec: str) -> str:
-        return self.apply(str(self), fmt=format_spec)
+        return self.apply(self.value, fmt=format_spec)
 
     def __repr__(self) -> str:
         text = self.value
